@@ -11,6 +11,7 @@ head = sh('git -C /verif rev-parse --short HEAD').stdout.strip()
 for name in names:
     pid = name.split('-')[0]
     patch = f'/verif/seeded/{name}/patch.diff'
+    if os.path.exists(f'/verif/seeded/{name}/patch.rebased.diff'): patch = f'/verif/seeded/{name}/patch.rebased.diff'
     how = 'apply'
     a = sh(f'git -C /repo apply {patch}')
     if a.returncode != 0:
